@@ -16,7 +16,7 @@ PLAN = dict(
         quick=[det("rel", H, "cs-rel", 16, 150, 4, tso=True, time_cap=30),
                det("dbg", H, "cs-dbg", 16, 60, 4, tso=True, time_cap=25),
                det("witness-throwing-assignment", H, "cs-rel", 1, 2, 2, time_cap=30, args=["--witness"]),
-               tsan("C13", 4, 80)],
+               tsan("C13", 8, 240)],
         thorough=[det("rel", H, "cs-rel", 16, 4000, 5, tso=True, time_cap=300),
                   det("dbg", H, "cs-dbg", 16, 1500, 5, tso=True, time_cap=200),
                   det("enum-conflict", H, "cs-rel", 16, 200, 2, tso=True, time_cap=100, enum="conflict", enum_cap=80),
